@@ -160,7 +160,10 @@ def o_c04(cimp, ctx):
         if immediately and not pop["cfg"]["dry_run"]:
             for t, o in pc["reports"]:
                 if o == O["FAIL"] and rep.get(t) == O["SKIP_UNCHANGED"]:
-                    probs.append((f"task {t} failed in the previous build and is now reported unchanged", ()))
+                    # F24: the function raised only after it had written all its products - with the content
+                    # recorded at its last successful run
+                    fid = ("F24",) if pop["faults"].get(str(t)) == "raise_after" else ()
+                    probs.append((f"task {t} failed in the previous build and is now reported unchanged", fid))
     return probs
 
 
